@@ -10,6 +10,9 @@ import Srctools.Gen.Fswalk
   → {"single":[{"V":{"lookup":[L…],"walk":[W…]},"Z":…,"P":…,"R":…}…],
      "chains":[{"lookup":[L…],"walkrep":[W…],"walk":[W…]}…]}
   L = [path,id] | "notfound" | "escape";  W = [[path,id]…] | "escape"
+  {"op":"hist", fold, cwd, cfg, sets as above,
+   "ops":[["add",kind,setIndex,pfx,priority] | ["pop",i] | ["lookup",q] | ["walk",d] | ["walkrep",d] …]}
+  → [ "done" | "poperror" | L | W … ]      one observation per operation, on ONE chain object starting empty
 -/
 open Lean Path C19
 
@@ -97,6 +100,38 @@ def handle (j : Json) : Except String Json := do
         ("walkrep", lJ (fun d => exJ (lJ pairJ) (chainWalkRepeat E d ms)) ds),
         ("walk", lJ (fun d => exJ (lJ pairJ) (chainWalk E d ms)) ds)])
     pure (Json.mkObj [("single", Json.arr singles.toArray), ("chains", Json.arr chainsJ.toArray)])
+  | "hist" =>
+    let fold ← foldOf (← j.getObjVal? "fold")
+    let cwd ← Wire.strOfCodes (← j.getObjVal? "cwd")
+    let cfg ← match (j.getObjVal? "cfg").toOption.getD Json.null with
+      | Json.null => pure Gen.Fswalk.walkCfg
+      | c => do
+        let a ← c.getArr?
+        pure (⟨← (a[0]!).getBool?, ← (a[1]!).getBool?, ← (a[2]!).getBool?⟩ : WalkCfg)
+    let E : Env := ⟨cfg, Gen.Fsys.cfg, fold, cwd⟩
+    let sets ← (← (← j.getObjVal? "sets").getArr?).toList.mapM setOf
+    let ops ← (← (← j.getObjVal? "ops").getArr?).toList.mapM fun o => do
+      let a ← o.getArr?
+      let tag ← (a[0]!).getStr?
+      match tag with
+      | "add" =>
+        let k ← kindOf (← (a[1]!).getStr?)
+        let i ← (a[2]!).getNat?
+        let p ← Wire.strOfCodes (a[3]!)
+        let pr ← (a[4]!).getBool?
+        let s := sets.getD i ([], [])
+        pure (Op.add ⟨⟨k, s.1, s.2⟩, p⟩ pr)
+      | "pop" => pure (Op.pop (← (a[1]!).getNat?))
+      | "lookup" => pure (Op.lookup (← Wire.strOfCodes (a[1]!)))
+      | "walk" => pure (Op.walk (← Wire.strOfCodes (a[1]!)))
+      | "walkrep" => pure (Op.walkRepeat (← Wire.strOfCodes (a[1]!)))
+      | _ => throw "hist op?"
+    let obsJ : Obs → Json
+      | .done => Json.str "done"
+      | .popError => Json.str "poperror"
+      | .look r => exJ pairJ r
+      | .listing r => exJ (lJ pairJ) r
+    pure (lJ obsJ (runHist E [] ops))
   | _ => throw s!"unknown op {op}"
 
 def main : IO Unit := Wire.main handle
